@@ -46,5 +46,12 @@ pub fn autoplay(millis: u64) {
             None => break,
         };
         game.push_history(next_move);
+
+        // Same length limit as the UCI interface: the state stack holds 512 plies
+        // and the search needs room on top of the game
+        if game.len() >= 400 {
+            println!("Game became too long");
+            break;
+        }
     }
 }
